@@ -486,6 +486,100 @@ pub fn read_wig(c: &Case, bytes: Vec<u8>, out: &mut String) {
                 answer!(&mut rd, qi, q);
             }
         }
+        "reopened" | "reopenedmt" => {
+            // the file on disk, read through `open_file` (a `ReopenableFile`): the original reader, readers reopened from it
+            // AFTER it has answered queries, and readers opened anew on a reopened handle must all answer alike; in
+            // `reopenedmt` four more reopened readers answer every interval query concurrently with the original
+            use bigtools::utils::reopen::Reopen;
+            let tf = tempfile::NamedTempFile::new().unwrap();
+            std::fs::write(tf.path(), &bytes).unwrap();
+            let mut r0 = BigWigRead::open_file(tf.path().to_str().unwrap()).unwrap();
+            let mut handles = vec![];
+            if mode == "reopenedmt" {
+                let ivq: Vec<(String, u32, u32)> = qs
+                    .iter()
+                    .filter(|q| q[1] == "iv")
+                    .map(|q| (q[2].clone(), q[3].parse().unwrap(), q[4].parse().unwrap()))
+                    .collect();
+                let collect = |rd: &mut BigWigRead<bigtools::utils::reopen::ReopenableFile>, ivq: &Vec<(String, u32, u32)>| -> Vec<String> {
+                    let mut res = vec![];
+                    for _round in 0..3 {
+                        for (n, s, e) in ivq {
+                            let mut line = String::new();
+                            match rd.get_interval(n, *s, *e) {
+                                Err(_) => line.push_str("err"),
+                                Ok(it) => {
+                                    for v in it {
+                                        match v {
+                                            Ok(v) => write!(line, " {}:{}:{}", v.start, v.end, f32bits(v.value)).unwrap(),
+                                            Err(_) => line.push_str(" err"),
+                                        }
+                                    }
+                                }
+                            }
+                            res.push(line);
+                        }
+                    }
+                    res
+                };
+                // reference answers: a reader of its own on the in-memory bytes
+                let mut want = vec![];
+                {
+                    let mut rc = BigWigRead::open(Cursor::new(bytes.clone())).unwrap();
+                    for _round in 0..3 {
+                        for (n, s, e) in &ivq {
+                            let mut line = String::new();
+                            match rc.get_interval(n, *s, *e) {
+                                Err(_) => line.push_str("err"),
+                                Ok(it) => {
+                                    for v in it {
+                                        match v {
+                                            Ok(v) => write!(line, " {}:{}:{}", v.start, v.end, f32bits(v.value)).unwrap(),
+                                            Err(_) => line.push_str(" err"),
+                                        }
+                                    }
+                                }
+                            }
+                            want.push(line);
+                        }
+                    }
+                }
+                for _t in 0..4 {
+                    let mut rt = r0.reopen().unwrap();
+                    let ivq = ivq.clone();
+                    handles.push(std::thread::spawn(move || collect(&mut rt, &ivq)));
+                }
+                let mine = collect(&mut r0, &ivq);
+                let mut same = mine == want;
+                for h in handles.drain(..) {
+                    match h.join() {
+                        Ok(v) => same = same && v == want,
+                        Err(_) => same = false,
+                    }
+                }
+                writeln!(out, "CONC {}", if same { "ok" } else { "differ" }).unwrap();
+            }
+            for (qi, q) in qs.iter().enumerate() {
+                match qi % 4 {
+                    0 => answer!(&mut r0, qi, q),
+                    1 => match r0.reopen() {
+                        Ok(mut r1) => answer!(&mut r1, qi, q),
+                        Err(_) => writeln!(out, "A {} err Reopen", qi).unwrap(),
+                    },
+                    2 => match r0.inner_read().reopen().map_err(|_| ()).and_then(|f| BigWigRead::open(f).map_err(|_| ())) {
+                        Ok(mut r2) => answer!(&mut r2, qi, q),
+                        Err(_) => writeln!(out, "A {} err ReopenOpen", qi).unwrap(),
+                    },
+                    _ => match r0.reopen() {
+                        Ok(r3) => {
+                            let mut r3 = r3.cached();
+                            answer!(&mut r3, qi, q)
+                        }
+                        Err(_) => writeln!(out, "A {} err Reopen", qi).unwrap(),
+                    },
+                }
+            }
+        }
         _ => {
             for (qi, q) in qs.iter().enumerate() {
                 answer!(&mut r, qi, q);
